@@ -28,7 +28,7 @@ for p in props:
         "engine": "vt",
         "level_claimed": {
             "category": "exploration",
-            "text": claim.get("text", "Generated-input search (Hypothesis, seeded by VERIF_SEED, sharded over 16 processes) against oracles written independently of the library; finite sub-domains enumerated completely. Refutes, never proves."),
+            "text": ("Exploration by generated-input search: every law of the property is a seeded Hypothesis search (VERIF_SEED, sharded over processes) over JSON cases, plus complete enumeration of the finite sub-domains it names, against oracles written independently of the library; a failure is shrunk to a replay file. It refutes, it never proves; the evidence file reports cases, distinct non-trivial cases, label distribution and worst residual/tolerance per law. Scope of this check: " + claim.get("text", "the laws listed in DESIGN.md for this property.")),
             "design_ref": "DESIGN.md section 4, " + pid,
         },
         "level_note": claim.get("note", "trusted: numpy/LAPACK, the harness oracles in vt/oracles and vt/props/%s.py, stated tolerances and generator bounds" % pid.lower()),
